@@ -41,6 +41,8 @@ DEFAULT = {
     "benter_all": False,      # a benter recorder first in every frame (attempt log for C08)
     "mark_bids": False,       # a recorder right before every bid: tag "bid|ctl|who|framer"
     "p_bid_period": 0.0,
+    "p_neg": 0.12,            # a written condition is negated (`if not ...`)
+    "p_aux_let": 0.3,         # share of p_let that applies to the frames of an auxiliary framer
 }
 
 CSHARES = [".c0", ".c1", ".c2", ".c3"]
@@ -94,7 +96,7 @@ def gen_need(rng, f, allow_clock=True, framer_names=(), aux_ctx=None):
     sh = rng.choice(CSHARES)
     op = rng.choice(["==", "==", "!=", ">=", "<"])
     n = P.cmp(sh, op, rng.randint(0, 2))
-    if rng.random() < 0.12:
+    if rng.random() < f.get("p_neg", 0.12):
         n["neg"] = True
     return n
 
@@ -187,7 +189,7 @@ def gen_framer(rng, f, name, sched, auxnames, others, slaves, is_aux=False, cond
                 o = byname[o].get("over")
     framer_auxes = sorted(used_aux)
     for fr in frames:
-        guarded = (not is_aux or rng.random() < 0.3) and rng.random() < f["p_let"]
+        guarded = (not is_aux or rng.random() < f.get("p_aux_let", 0.3)) and rng.random() < f["p_let"]
         st = add_recs(rng, f, name, fr, guarded)
         if guarded:     # the benter recorder comes first so that every *attempt* is logged
             st.insert(1, {"v": "let", "needs": [gen_need(rng, f, allow_clock=False)]})
@@ -438,3 +440,45 @@ def shared_condaux_program(rng):
     prog["ticks"] = ticks + 2
     prog["plan"] = {str(k): v for k, v in plan.items()}
     return prog
+
+
+def cloneify(prog, rng, p=0.75):
+    """Metamorphic variant of a generated program: an auxiliary framer that exactly one plain `aux` statement of the whole
+    program names (and no `done` condition names) is declared `be moot` instead and that statement clones it, `as <tag>`
+    or `as mine`.  A clone hosted by one frame is its own framer object built by Framer.clone / Frame.clone / Act.clone;
+    everything the program can observe of it must be what the original framer would do as the plain aux of that frame.
+    Returns (program, alias) with alias = {name of the clone framer: name of the framer it stands for}."""
+    import copy
+    prog2 = copy.deepcopy(prog)
+    house = prog2["houses"][0]
+    sites, named = {}, set()
+
+    def walk_needs(needs):
+        for n in needs or []:
+            if n.get("n") == "auxdone" and n.get("which") not in ("any", "all"):
+                named.add(n["which"])
+    for fr in house["framers"]:
+        for frame in fr["frames"]:
+            for s in frame["stmts"]:
+                if s["v"] == "aux":
+                    sites.setdefault(s["aux"], []).append((fr, frame, s))
+                walk_needs(s.get("needs"))
+    alias = {}
+    k = 0
+    for fr in house["framers"]:
+        if fr["sched"] != "aux" or fr["name"] in named:
+            continue
+        at = sites.get(fr["name"], [])
+        if len(at) != 1 or at[0][2].get("needs") or rng.random() > p:
+            continue
+        host, frame, s = at[0]
+        fr["sched"] = "moot"
+        if rng.random() < 0.5:
+            tag = "k%d" % k
+            k += 1
+            s["as"] = tag
+        else:
+            s["as"] = "mine"
+            tag = fr["name"] + "1"          # Framer.newMootTag: the first insular clone of `a0` in a host is tagged a01
+        alias["%s_%s" % (host["name"], tag)] = fr["name"]
+    return prog2, alias
